@@ -86,14 +86,17 @@ static ssize_t ck_read(void* c, char* b, size_t n)
     s->pos += m;
     return ssize_t(m);
 }
+// A cookie write function must take everything it is given: stdio treats a
+// short count from it as an error and drops the rest (glibc _IO_cookie_write),
+// unlike write(2) on a real file, which stdio retries.  The legal variation
+// on this side is therefore the size of the stdio buffer (how the byte stream
+// is cut into write calls), chosen per file from the seed.
 static ssize_t ck_write(void* c, const char* b, size_t n)
 {
     cookie_state* s = (cookie_state*) c;
-    size_t m = n;
-    size_t lim = 1 + size_t(s->R.below(48));
-    if (m > lim) { m = lim; s->shorts++; }
-    s->data->append(b, m);
-    return ssize_t(m);
+    s->data->append(b, n);
+    s->shorts++;
+    return ssize_t(n);
 }
 
 // ----------------------------------------------------------------------
@@ -118,6 +121,7 @@ void World::opIO(const Step &s)
     std::vector<EdgeSlot*> roots;
     for (unsigned i = 0; i < nroots; i++) roots.push_back(edges[ce[R.below(ce.size())]]);   // repeats allowed
     const unsigned transport = s.a[2] % 2;
+    desc << "write " << nroots << " roots of " << fn(fi) << " via " << (transport ? "FILE*" : "iostream") << ", read back target " << s.a[3] % 3;
     std::string disk;
     long shorts = 0;
     try {
@@ -137,6 +141,16 @@ void World::opIO(const Step &s)
             cookie_state cs { &disk, 0, Rng(s.seed ^ 0x22), 0 };
             cookie_io_functions_t fn = { nullptr, ck_write, nullptr, nullptr };
             FILE* fp = fopencookie(&cs, "w", fn);
+            static char wbuf[256];
+            {
+                Rng B(s.seed ^ 0x55);
+                switch (B.below(4)) {
+                    case 0: setvbuf(fp, nullptr, _IONBF, 0); break;
+                    case 1: setvbuf(fp, wbuf, _IOLBF, 1 + size_t(B.below(255))); break;
+                    case 2: setvbuf(fp, wbuf, _IOFBF, 1 + size_t(B.below(255))); break;
+                    default: break;     // stdio default
+                }
+            }
             {
                 FILE_output out(fp);
                 mdd_writer W(out, F.f);
@@ -156,7 +170,11 @@ void World::opIO(const Step &s)
     stats.fired["short_writes"] += shorts;
     // target forest
     int ti = fi;
-    const unsigned target = s.a[3] % 3;
+    unsigned target = s.a[3] % 3;
+    // KF-C14-1: the file does not record the reduction rule; a forest created
+    // from it is identity-reduced for relations, which reads the long edges of
+    // a fully-reduced relation forest as identities (probe plans only)
+    if (target == 2 && F.spec.rel && F.spec.red == 0 && s.a[5] != 999) target = 0;
     if (target == 1) {
         ti = pickForest(s.a[4], [&](const ForRT &T) {
             return &T != &F && T.spec.dom == F.spec.dom && T.spec.rel == F.spec.rel
@@ -223,10 +241,19 @@ void World::opIO(const Step &s)
         tmp.f = created;
         tmp.spec = F.spec;
         tmp.lvl2var = F.lvl2var;
+        // the file records set/relation, range and labeling; the reduction
+        // rule and the policies of a forest created from it are the defaults
+        tmp.spec.red = created->isFullyReduced() ? 0 : (created->isQuasiReduced() ? 1 : 2);
+        tmp.spec.storage = 3; tmp.spec.del = 1;
         if (created->isForRelations() != (F.spec.rel != 0) || created->getRangeType() != F.f->getRangeType()
-            || created->getEdgeLabeling() != F.f->getEdgeLabeling()
-            || created->getReductionRule() != F.f->getReductionRule()) {
-            failNow("F1", cur_family, "forest created from the file differs in kind from the writing forest");
+            || created->getEdgeLabeling() != F.f->getEdgeLabeling()) {
+            std::ostringstream o;
+            o << "forest created from the file differs in kind from the writing forest: relations "
+              << created->isForRelations() << "/" << (F.spec.rel != 0) << ", range " << int(created->getRangeType())
+              << "/" << int(F.f->getRangeType()) << ", labeling " << int(created->getEdgeLabeling()) << "/"
+              << int(F.f->getEdgeLabeling()) << ", reduction " << int(created->getReductionRule()) << "/"
+              << int(F.f->getReductionRule());
+            failNow("F1", cur_family, o.str());
         }
     }
     for (unsigned i = 0; i < nroots && !failed(); i++) {
@@ -284,6 +311,7 @@ void World::opMisuse(const Step &s)
 {
     cur_family = "misuse";
     const unsigned which = s.a[0] % 8;
+    desc << "misuse case " << which;
     Rng R(s.seed);
     auto liveEdge = [&](const std::function<bool(const ForRT&)> &pred, uint32_t raw) -> EdgeSlot* {
         std::vector<size_t> c = edgesWhere([&](const EdgeSlot &e) {
@@ -385,6 +413,21 @@ void World::opMisuse(const Step &s)
             case 5: {   // result edge attached to the wrong forest
                 EdgeSlot* A = liveEdge([](const ForRT &F) { return F.kind() == FK_MTB; }, s.a[1]);
                 if (!A) { note(OC_SKIP); return; }
+                if (s.a[5] != 999) {
+                    // through apply(): a result edge in a forest whose kind
+                    // cannot hold the result (set vs relation) is refused
+                    int wf = pickForest(s.a[2], [&](const ForRT &F) {
+                        return F.spec.dom == forests[A->forest].spec.dom && F.spec.rel != forests[A->forest].spec.rel; });
+                    if (wf < 0) { note(OC_SKIP); return; }
+                    what = "UNION with the result edge attached to a forest of the other shape (set/relation)";
+                    accept = { error::TYPE_MISMATCH, error::NOT_IMPLEMENTED };
+                    f1 = A->forest; f2 = wf;
+                    dd_edge r(forests[wf].f);
+                    apply(UNION, *A->e, *A->e, r);
+                    break;
+                }
+                // KF-C16-1 (probe plans only): a pre-built operation's
+                // compute() given a result edge attached to another forest
                 int wf = pickForest(s.a[2], [&](const ForRT &F) {
                     return F.kind() == FK_MTB && &F != &forests[A->forest]
                         && F.spec.dom == forests[A->forest].spec.dom && F.spec.rel == forests[A->forest].spec.rel; });
@@ -458,6 +501,7 @@ void World::opKillForest(const Step &s)
     if (fi < 0) { note(OC_SKIP); return; }
     // iterators on it must not be advanced any more
     for (IterSlot* I : iters) if (I->forest == fi) { I->forest = -1; }
+    desc << "destroy " << fn(fi);
     destroyForest(fi);
     stats.fired["forest_destroyed"]++;
     note(OC_OK);
@@ -470,6 +514,7 @@ void World::opKillDomain(const Step &s)
     for (size_t i = 0; i < doms.size(); i++) if (doms[i].alive) c.push_back(int(i));
     if (c.size() < 1) { note(OC_SKIP); return; }
     int di = c[s.a[0] % c.size()];
+    desc << "destroy domain " << di;
     for (IterSlot* I : iters) if (I->forest >= 0 && forests[I->forest].spec.dom == di) I->forest = -1;
     destroyDomain(di);
     stats.fired["domain_destroyed"]++;
@@ -485,6 +530,7 @@ void World::opNewForest(const Step &s)
         if (!forests[i].alive && doms[forests[i].spec.dom].alive) c.push_back(int(i));
     if (c.empty()) { note(OC_SKIP); return; }
     createForest(c[s.a[0] % c.size()]);
+    desc << "re-create " << fn(c[s.a[0] % c.size()]);
     stats.fired["forest_recreated"]++;
     note(OC_OK);
 }
@@ -492,6 +538,7 @@ void World::opNewForest(const Step &s)
 void World::opRestart(const Step &s)
 {
     cur_family = "lifecycle";
+    desc << "cleanup() and initialize() again";
     // cleanup() with everything alive; edges become inert
     for (IterSlot* I : iters) { delete I->it; delete I->mask; delete I->root; delete I; }
     iters.clear();
